@@ -176,10 +176,17 @@ def _docs_case(entry, pres, dstate, pstate, didx, strat_copy):
             call = lambda: dj.sync(sj, doc_sync=SL.doc_sync(didx), strategy=st)
             selected = {sj.id}
         out = SL.outcome(call)
+        if out == "doc" and didx == 4:
+            return ("error", "DocumentSyncConflict", "raised although doc_sync=NO_SYNC leaves every document alone"), []
         if out != "ok":
             return out, []
         as_, ad = SL.snap(src.path), SL.snap(dst.path)
         problems = _post(src, dst, bs, bd, as_, ad, selected, False, None, didx, entry)
+        if didx == 4:
+            # NO_SYNC: no existing document of the destination (job or project level) is touched
+            for k, v in bd.items():
+                if (k.endswith(DOCFN) or k == "signac_project_document.json") and v is not None and ad.get(k) != v:
+                    problems.append(("NO_SYNC changed a destination document", k))
         # source document keys absent from the destination are now present (unless NO_SYNC)
         if didx not in (4,):
             docs_ = [k for k in bs if k.endswith(DOCFN) and bs[k] is not None and k.split("/")[1] in selected]
